@@ -63,10 +63,12 @@ TrSubMsgBuilt ==
 (* ---- a reply reaches the dispatcher ------------------------------------ *)
 TrReply ==
     /\ IsEvent("Reply") /\ st \in {"idle", "dispatched"}
-    /\ LET fromBuilder == fx.builtseq = E.seq /\ E.h # "?" IN
+    /\ LET sameId == fx.builtseq = E.seq /\ E.h # "?"
+           fromBuilder == sameId /\ E.pay = "built"       \* (with another payload it is not the chain's reply to the built sub-message)
+       IN
        /\ Chk("BIND", "reply_carries_the_built_id_and_payload", l,
-              fromBuilder => (E.id = fx.built.id /\ E.payload = fx.built.payload))
-       /\ rep' = [h |-> E.h, result |-> E.result, class |-> E.class]
+              (sameId => E.id = fx.built.id) /\ (fromBuilder => E.payload = fx.built.payload))
+       /\ rep' = [h |-> E.h, result |-> E.result, class |-> E.class, pay |-> E.pay]
        /\ sub' = IF fromBuilder /\ ChainReplies(fx.built.reply_on, E.result)
                  THEN [h |-> E.h, recv |-> "wasm", reply_on |-> fx.built.reply_on, gas_kept |-> TRUE] ELSE NoSub
     /\ st' = "replied" /\ out' = NoOut
@@ -98,7 +100,7 @@ CtxReplyOk(m, e, r) ==
     /\ e.ctx.events = (IF m.on = "success" THEN EvTypes(r.events) ELSE <<>>)
     /\ e.ctx.msg_responses = (IF m.on = "success" THEN r.msgresp ELSE 0)
 LegacyHandlerOk(e, r) ==      \* the single reply method of a legacy program is handed the reply as it arrived
-    /\ e.name = "reply" /\ e.second.kind = "reply"
+    /\ e.name = Pr.methods[1].name /\ e.second.kind = "reply"
     /\ e.second.id = r.id /\ e.second.payload = r.payload /\ e.second.gas_used = r.gas_used
     /\ e.second.ok = (r.result = "ok") /\ e.second.events = (IF r.result = "ok" THEN r.events ELSE 0)
     /\ e.second.data = (IF r.result = "ok" THEN r.data ELSE "") /\ (r.result = "err" => e.second.text = r.err_text)
@@ -106,6 +108,7 @@ LegacyHandlerOk(e, r) ==      \* the single reply method of a legacy program is 
 TrLegacyReplyHandler ==
     /\ IsEvent("ReplyHandler") /\ st \in {"replied", "handled"} /\ Legacy(Pr)
     /\ Chk("C06", "a_reply_runs_the_reply_method_once", l, st = "replied")
+    /\ Chk("C04", "a_reply_runs_a_reply_handler_and_no_handler_of_another_kind", l, E.name = Pr.methods[1].name)
     /\ Chk("C06", "reply_entry_point_hands_the_whole_reply_to_the_reply_method", l, LegacyHandlerOk(E, fx.reply))
     /\ out' = [kind |-> "method", m |-> 1, extracted |-> ""]
     /\ st' = "handled"
@@ -134,7 +137,8 @@ TrReplyHandler ==
                   /\ Chk("C07", "context_carries_gas_and_for_success_events", l, CtxReplyOk(m, E, fx.reply))
                   /\ Chk("C07", "second_parameter_is_error_text_or_full_result_as_declared", l, SecondOk(m, E, fx.reply))
                   /\ Chk("C08", "payload_parameters_receive_the_values_given_to_the_builder", l,
-                         fx.builtseq = fx.reply.seq => E.payload = fx.built.pay_vals)
+                         (fx.builtseq = fx.reply.seq /\ rep.pay = "built") => E.payload = fx.built.pay_vals)
+                  /\ Chk("C08", "a_method_runs_only_on_a_payload_its_parameters_decode_from", l, PayloadDecodes(Pr, rep.h, rep.pay))
                   /\ (m.on = "success" =>
                         /\ Chk("C09", "handler_runs_only_on_data_it_can_be_given", l,
                                ObservedExtract(m.data, E) \in Extract(m.data, rep.class))
@@ -167,11 +171,16 @@ TrReplyReturn ==
                /\ Chk("C07", "uncovered_failure_returns_that_error", l,
                       r.kind = "forward_error" => (E.verdict = "err" /\ E.err_mentions_sub_error))
                /\ Chk("C07", "a_covered_outcome_runs_its_method", l,
-                      r.kind = "method" => (r.second = "data" /\ \E x \in Extract(DataMode(Pr, rep.h), rep.class) : ~HandlerRuns(x)))
+                      r.kind = "method" => (\/ ~PayloadDecodes(Pr, rep.h, rep.pay)
+                                            \/ (r.second = "data" /\ \E x \in Extract(DataMode(Pr, rep.h), rep.class) : ~HandlerRuns(x))))
                /\ Chk("C09", "missing_or_undecodable_data_fails_with_an_error", l,
                       (r.kind = "method" /\ r.second = "data") => E.verdict = "err")
+               /\ Chk("C08", "an_undecodable_payload_fails_with_an_error", l,
+                      (r.kind = "method" /\ ~PayloadDecodes(Pr, rep.h, rep.pay)) => E.verdict = "err")
                /\ Chk("C07", "nothing_touches_storage_when_no_handler_runs", l, E.mark = "")
-               /\ out' = [kind |-> IF ~known THEN "unknown_id" ELSE IF r.kind = "method" THEN "data_error" ELSE r.kind,
+               /\ out' = [kind |-> IF ~known THEN "unknown_id"
+                                    ELSE IF r.kind = "method" THEN (IF PayloadDecodes(Pr, rep.h, rep.pay) THEN "data_error" ELSE "payload_error")
+                                    ELSE r.kind,
                           m |-> r.m, extracted |-> IF r.kind = "method" THEN "missing" ELSE ""]
     /\ st' = "dispatched"
     /\ UNCHANGED <<pi, sub, rep, fx>>
